@@ -39,6 +39,7 @@ class Concretizer:
         for a in roots:
             if a.text is not None:
                 self.strings[a.idx] = a.text; continue
+            if a.shape is not None: continue          # derived from its parts on demand
             if a.version is not None:
                 if self.ev(a.version[0]):
                     self.strings[a.idx] = ".".join(str(self.ev(x)) for x in a.version[1].fields)
@@ -75,6 +76,9 @@ class Concretizer:
             return "".join(out)
         if is_int(s): return str(self.ev(s))
         a = self.ctx.atom_of(s)
+        if a.shape is not None and a.text is None:
+            if a.shape[0] == "pre": return a.shape[1] + self.string(a.shape[2])
+            if a.shape[0] == "split3": return a.shape[1].join(self.string(p) for p in a.shape[2:])
         if a.idx not in self.strings:
             if a.text is not None: self.strings[a.idx] = a.text
             else: self.strings[a.idx] = f"str{a.idx}"      # never inspected on the path: any content will do
@@ -98,7 +102,12 @@ class Concretizer:
         if isinstance(v, VecV): return VecV([self.value(f) for f in v.items])
         if isinstance(v, JsonBin): return JsonBin(self.value(v.value), v.ty)
         if isinstance(v, (str, StrAtom, SymStr, FmtStr)): return self.string(v)
-        if isinstance(v, SymBin): return JsonBin(Struct("Opaque", [f"bin{v.id}"], ["opaque"]), None)
+        if isinstance(v, SymBin):
+            # bytes that the path parsed successfully are the JSON of the value it got; otherwise unparsable filler
+            for (bid, ty), (ok, val) in ctx.bin_parse.items():
+                if bid == v.id and val is not None and self.ev(ok):
+                    return JsonBin(self.value(val), ty)
+            return JsonBin(Struct("Opaque", [f"bin{v.id}"], ["opaque"]), None)
         if z3.is_expr(v): return self.ev(v)
         return v
 
